@@ -2,7 +2,7 @@
    Print Assumptions. *)
 From Coq Require Import ZArith QArith List Bool.
 From Centro Require Import Model.Circle Model.HullFill Spec.MecSpec Spec.FeretSpec Spec.FeretLower Spec.FillSpec
-  Proofs.MecProofs Proofs.CircleProofs Proofs.FeretProofs Proofs.FeretLowerProofs Proofs.FillProofs.
+  Proofs.MecProofs Proofs.CircleProofs Proofs.FeretProofs Proofs.FeretLowerProofs Proofs.FillProofs Proofs.FillEdgeProofs.
 
 (* Full.  Soundness of the certificate checker that is run on the exact circle reconstructed from
    the implementation's output: the circle contains every pixel centre of S and no circle
@@ -100,3 +100,27 @@ Theorem C14_fill_run_exact : forall n0 d0 n1 d1 j, (0 < d0)%Z -> (0 < d1)%Z ->
   (In j (run_js n0 d0 n1 d1) <-> (n0 <= j * d0 /\ j * d1 <= n1)%Z).
 Proof. exact run_js_spec. Qed.
 Print Assumptions C14_fill_run_exact.
+
+(* Full (edge level of the scan-line model).  The entries generated for a non-horizontal hull edge
+   p -> q lie on rows between p and q and are the exact rational points where the edge's line meets
+   those rows ... *)
+Theorem C14_fill_edge_exact : forall l p q e,
+  fst p <> fst q -> In e (snd (edge_entries l p q)) ->
+  e_l e = l /\ (0 < e_jd e)%Z /\
+  (Z.min (fst p) (fst q) <= e_i e <= Z.max (fst p) (fst q))%Z /\
+  ((fst q - fst p) * (e_jn e - snd p * e_jd e) = (snd q - snd p) * (e_i e - fst p) * e_jd e)%Z.
+Proof. exact edge_entries_exact. Qed.
+Print Assumptions C14_fill_edge_exact.
+
+(* ... and every row between p and q gets one.
+   Partial as a statement about the whole scan-line model: together with C14_fill_run_exact these
+   give "per row, the columns between the exact intersections of two hull edges with the row".
+   Missing for fill_model = specified set: the sort/group bookkeeping (first and last entry of a
+   (label, row) group are the extreme intersections) and the convexity argument (the polygon meets
+   a row in the segment between its extreme boundary points).  On every run fill_model's output is
+   compared exactly with the implementation's, whose output passes the verified fill_ok. *)
+Theorem C14_fill_spec_partial : forall l p q i,
+  fst p <> fst q -> (Z.min (fst p) (fst q) <= i <= Z.max (fst p) (fst q))%Z ->
+  exists e, In e (snd (edge_entries l p q)) /\ e_i e = i.
+Proof. exact edge_entries_complete. Qed.
+Print Assumptions C14_fill_spec_partial.
